@@ -55,6 +55,24 @@ def evaluate(case):
     exp_v = np.repeat(pv, n_b) * f ** 3 * np.tile(rv, m)
     if not np.allclose(vols, exp_v, rtol=1e-12):
         return "6D volumes are not position volume x rotation volume x f^3 in grid order"
+    # the getters are pure: asking for the prefactors (which divides in place) and asking again gives the same matrices
+    with quiet():
+        first = {k: v.toarray().astype(float) for k, v in mats.items()}
+        try:
+            pre = fg.get_full_prefactors()
+            pre2 = fg.get_full_prefactors()
+        except Exception as e:
+            pre = pre2 = None
+        again = {"adjacency": fg.get_full_adjacency(), "border_len": fg.get_full_borders(), "center_distances": fg.get_full_distances()}
+    for k in first:
+        if not np.array_equal(again[k].toarray().astype(float), first[k]):
+            return f"{k}: a second call on the same object (after get_full_prefactors) returns different values"
+    if pre is not None:
+        with np.errstate(divide="ignore", invalid="ignore"):
+            expp = np.where(first["center_distances"] != 0, first["border_len"] / np.where(first["center_distances"] != 0, first["center_distances"], 1) / vols[:, None], 0.0)
+        if pre.shape == (n, n) and len(pats["border_len"][0]) == len(pats["center_distances"][0]):
+            if not np.allclose(pre.toarray(), expp, rtol=1e-10, atol=1e-14) or not np.allclose(pre2.toarray(), expp, rtol=1e-10, atol=1e-14):
+                return "get_full_prefactors is not borders/(distances*volume_i) (or changes on the second call)"
     return None
 
 
